@@ -55,6 +55,26 @@ def exec_config(case):
         if isinstance(r, QTensor):
             O.check_invariant(out, f"config/{name}/{qprog.kind_key(q)}", r)
             qprog.move_clause(out, f"config/{name}/{qprog.kind_key(q)}", q, r, None)
+    # a scale laid along the WRONG end of the tensor (an optimizer that ignores `axis`, a scale prepared for the transposed weight):
+    # whatever the shape -- the counts agree when the first and last dimensions are equal -- the call refuses, or what it returns
+    # declares an axis its scale really broadcasts along
+    if not out.failures and qtype.bits == 8 and x.ndim >= 2 and case["axis"] in (0, -1) and isinstance(q, QTensor) and q.axis is not None:
+        from optimum.quanto.tensor.quantizers import SymmetricQuantizer
+        from optimum.quanto import SymmetricOptimizer
+
+        other = -1 if case["axis"] == 0 else 0
+        wshape = [1] * x.ndim
+        wshape[other] = x.shape[other]
+        wrong = (x.abs().amax(dim=[d_ for d_ in range(x.ndim) if d_ != other % x.ndim], keepdim=True) / 100 + 1e-3).to(x.dtype).reshape(wshape)
+
+        class IgnoresAxis(SymmetricOptimizer):
+            def optimize(self, base, bits, axis=None):
+                return wrong
+
+        for how, call in (("SymmetricQuantizer", lambda: SymmetricQuantizer.apply(x, qtype, case["axis"], wrong)), ("quantize_weight-user-optimizer", lambda: quantize_weight(x, qtype, case["axis"], optimizer=IgnoresAxis()))):
+            r = cut(call)
+            if isinstance(r, QTensor):
+                O.check_invariant(out, f"config/scale-along-the-other-axis/{how}/{qprog.kind_key(r)}", r)
     # a copy ACROSS devices: the destination lives on the meta device (the only other device here), the source on the cpu. The
     # float program is valid (a tensor without storage has nothing to receive); the destination stays one consistent meta tensor
     if not out.failures and case.get("seed", 0) % 2 == 0:
